@@ -42,7 +42,8 @@ warnings.simplefilter("ignore")
 
 ID = "C02"
 DESIGN_REF = "DESIGN.md section 5, C02; design/C02.md; design/REFTOOLS.md"
-LEAN_TARGETS = ["PV.C02.Thm", "PV.C02.RThm", "PV.C02.RProgThm", "PV.C02.FStrLex", "PV.C02.FStrField", "PV.C02.FStrThm"]
+LEAN_TARGETS = ["PV.C02.Thm", "PV.C02.RThm", "PV.C02.RProgThm", "PV.C02.FStrLex", "PV.C02.FStrField", "PV.C02.FStrThm", "PV.C02.FStrBody", "PV.C02.FStrThm1", "PV.C02.FStrRoot",
+                "PV.C02.FSoundNodes", "PV.C02.FSoundIdx", "PV.C02.FSoundSteps", "PV.C02.FStrFull"]
 DRIVER = "drv_c02"
 HARNESS = {"bin": "pvh_c01", "features": "all-ranges"}
 THEOREMS = [
@@ -79,6 +80,20 @@ THEOREMS = [
     "PV.C02.fieldTab_within_field",
     "PV.C02.aligned_of_tied",
     "PV.C02.field_value_res",
+    # f-string literals, one level deep: the f-string step of the induction and what follows at the string production
+    "PV.C02.bodyAt",
+    "PV.C02.strings_res_fstr1",
+    "PV.C02.ftie_of_ftied",
+    "PV.C02.parseRStrings_rangesOk_fstr1",
+    "PV.C02.parseRAtom_rangesOk_fstr1",
+    "PV.C02.invAt",
+    "PV.C02.parseR_rangesOk_fstr1",
+    "PV.C02.parseRExpression_rangesOk_fstr1",
+    # f-string literals ANYWHERE in the expression (one level): the induction re-run with the tie
+    "PV.C02.F.soundAt",
+    "PV.C02.parseR_rangesOk_fstr",
+    "PV.C02.parseRExpression_rangesOk_fstr",
+    "PV.C02.fplain1_of_plain",
     # about the model of range computation for whole programs (ranged twin of the reference program parser PV.Prog)
     "PV.C02.parseRProgramFuel_erase",
     "PV.C02.parseRProgram_erase",
@@ -118,7 +133,9 @@ TRUSTED = [
     "tools/props/c02.py (oracle: structural rules, extent rules for the kinds CPython does not position), "
     "tools/props/c11.py, tools/props/prog.py (generators, corpus, attachment rewriting), tools/shapes.py, "
     "tools/gen_program.py, tools/refsweep.py, harness/src/astdump.rs, harness/src/bin/pvh_c01.rs, lean/Drv/C02.lean, "
-    "lean/Drv/C02Prog.lean, lean/PV/C02/Fwd.lean (proof-producing tactic; its output is kernel-checked), "
+    "lean/Drv/C02Prog.lean, lean/PV/C02/Fwd.lean and the `ftie_tails` tactic of lean/PV/C02/FSoundSteps.lean (proof-producing "
+    "tactics; their output is kernel-checked), tools/c02_gen_fsound.py / tools/c02_gen_fsteps.py (generators of "
+    "lean/PV/C02/FSound*.lean, whose output Lean checks), "
     "tools/c02_gen_nodes.py (generator of lean/PV/C02/RProgSoundNodes.lean, whose output Lean checks)",
 ]
 PARTIAL = [
@@ -165,12 +182,31 @@ PARTIAL = [
     "pieces in a concatenation, parenthesised parameter default (lambda and def), compound end without the trailing "
     "`;`, match subject tuple; regression facts of repaired findings: ArgWithDefault includes its default, with-items "
     "of a parenthesised list, empty Arguments of a lambda",
-    "not proved: the structural theorem for whole trees containing f-string pieces (parseR_rangesOk_fstr: Tiled + FTied "
-    "+ parse -> rangesOk). What is missing is bookkeeping, not mathematics: the hypothesis FTied speaks about the token "
-    "at a cursor, so it has to be threaded through the 48 step lemmas of SoundSteps (rest is a suffix of the input: "
-    "available from parseR_erase + PV.Prog.c11Suf), `plain` replaced by a predicate that admits JoinedStr / "
-    "FormattedValue whose field values are plain (or recursively fine), and the pieces of fstrRBody / fstrRField / "
-    "fstrRSpec assembled (every piece ranged `lit`, FormattedValue children by field_value_res); the listed finding fstring-field-range-after-crlf is reproduced "
+    "proved (unbounded): f-string literals one level deep — bodyAt (mutual induction over fstrRBody / fstrRField / "
+    "fstrRSpec: for an f-string token tied to the source every piece that is a constant or a FormattedValue with an "
+    "f-string-free value and a format spec of such pieces, nested specs to any depth, satisfies all structural clauses "
+    "below the token span; cursors stay suffixes of the token value), strings_res_fstr1 (the f-string step of the "
+    "soundness induction: what parseRStrings returns at a tied cursor is fine inside the window of the tokens consumed, "
+    "concatenations included), ftie_of_ftied, and parseRStrings_rangesOk_fstr1 / parseRAtom_rangesOk_fstr1: Tiled + FTied "
+    "+ the string production returns e + fstrTop e -> rangesOk src e.toTree, with NO `plain` hypothesis on the f-string; and "
+    "for an f-string AT THE ROOT of the expression (possibly parenthesised, possibly a concatenation): "
+    "parseR_rangesOk_fstr1 / parseRExpression_rangesOk_fstr1: Tiled + FTied + parseR fuel toks = some (e, rest) + "
+    "fstrTop e -> rangesOk, by inversion of the parser over 18 functions of the expression chain (invAt: a JoinedStr they "
+    "return was returned by parseRStrings at a suffix cursor)",
+    "proved (unbounded, for the MODEL of expressions): parseR_rangesOk_fstr / parseRExpression_rangesOk_fstr — for every "
+    "source, every spanned token list that tiles it (Tiled) and is tied to it (FTied), every fuel: every tree the ranged "
+    "parser returns that is `fplain1` passes rangesOk. fplain1 = `plain` with f-string literals admitted at ANY "
+    "expression position (call argument, operand, element, default …): JoinedStr whose pieces are constants and "
+    "FormattedValues with an f-string-free value and a format spec of such pieces (nested specs to any depth, "
+    "conversions, self-documenting fields, implicit concatenations). By re-running the 48-function induction in the "
+    "namespace PV.C02.F (FSoundNodes / FSoundIdx / FSoundSteps, GENERATED from SoundNodes / SoundIdx / SoundSteps by "
+    "tools/c02_gen_fsound.py and tools/c02_gen_fsteps.py) with the tie FTie carried by every function (hypothesis on "
+    "the cursor, conclusion on the rest); F.soundAt is the induction, strings_res_fstr1 its f-string step",
+    "not proved: (a) an f-string nested INSIDE a replacement field (`f'{f\"{x}\"}'`: fplain1 false; needs the tie for "
+    "the inner tokens — lex_lockstep strengthened from lengths to token texts — and the induction hypothesis "
+    "quantified over the span table); (b) the program level with f-strings (parseRProgram_rangesOk_partial still "
+    "demands plainM: RProgSound1-4 consume the expression level through soundAt, they would have to be re-run over "
+    "F.soundAt with the tie on program tokens); the listed finding fstring-field-range-after-crlf is reproduced "
     "by the program model per input (real token values) but lies outside the lexer model's domain",
     "the bridges tiled_of_lexer / tiledP_of_lexer relate token SPANS of the lexer model to `Tiled`; token values of "
     "PV.Lexer.Tok and PV.Expr.Tok are related only by correspondence streams",
@@ -185,7 +221,9 @@ TECHNIQUE = ("Lean 4: executable models of the range computation of the WHOLE gr
 LEVEL_TEXT = ("Machine-checked Lean 4, for every input and fuel: (1) erasing the ranges computed by the models parseR / "
               "parseRProgram gives exactly the reference parsers parseRef (C11) / parseProgram (PROG), so acceptance and "
               "trees coincide; (2) for token spans that tile the source (proved of the lexer model by C05, bridged by "
-              "tiled_of_lexer / tiledP_of_lexer) every tree without f-string pieces that the models return — a single "
+              "tiled_of_lexer / tiledP_of_lexer) every tree that the models return — without f-string pieces; for single "
+              "expressions also WITH f-string literals anywhere in the tree when the f-string tokens are tied to the source "
+              "(FTied) and their replacement-field expressions are f-string-free (parseR_rangesOk_fstr) — a single "
               "expression or a whole Module / Interactive / Expression parse with all statement, pattern, handler, case, "
               "alias, with-item, type-parameter and parameter nodes — satisfies all structural clauses of the property "
               "(inside the input, on UTF-8 boundaries, start <= end, parents enclose children with the decorator "
@@ -199,10 +237,11 @@ LEVEL_TEXT = ("Machine-checked Lean 4, for every input and fuel: (1) erasing the
               "in all three modes: PROG's corpus, directed parameter-list / with-item / rare-production shapes, generated "
               "programs with CR / CRLF / tabs / comments / BOM / continuation lines, stdlib files); the real trees are "
               "judged by an independent oracle (structure, CPython 3.11 positions, extent rules).")
-LEVEL_NOTE = ("Partial: f-string pieces are excluded from the whole-tree structural theorems (the statement with `Tiled` alone "
-              "is refuted; with tied tokens rangesOk is kernel-evaluated true on f-string samples, and the tiling of a "
-              "replacement field's span table and the soundness of the recursive field parse are proved — "
-              "fieldTab_within_field, field_value_res — but not yet threaded through the induction); exact extents of program-level nodes "
+LEVEL_NOTE = ("Partial: at the EXPRESSION level f-string literals are inside the structural theorem (parseR_rangesOk_fstr: "
+              "Tiled + FTied, any position in the tree) except f-strings nested inside a replacement field; the statement "
+              "with `Tiled` alone is refuted (parseR_rangesOk_fails: the token value must be tied to its span, FTied; a CR LF "
+              "folded by the real lexer breaks the tie — listed finding). At the PROGRAM level f-string pieces are still "
+              "excluded (plainM). Exact extents of program-level nodes "
               "other than small statements are proved as windows / token-aligned ends, not as equations with the token "
               "span (compared per input). Trusted: fidelity of the hand-written models as sampled by the correspondence "
               "streams.")
@@ -591,6 +630,17 @@ def _judge_chunk(pairs):
 
 def oracle(req, out):
     ws = req.split()
+    if ws[0] == "parse" and ws[2] != "0":
+        # parsed at a start offset k: the ranges must be the extents moved by k (the statement "lies inside the input /
+        # equals the construct's extent" for a text that starts at k); judged as the offset-0 answer after moving back
+        k = int(ws[2])
+        bad = [m.group(0) for m in re.finditer(r"@(\d+)\.\.(\d+)", out) if int(m.group(1)) < k or int(m.group(2)) < k]
+        if bad:
+            return f"parsed at start offset {k}: range {bad[0]} lies before the input"
+        out0 = re.sub(r"@(\d+)\.\.(\d+)", lambda m: "@%d..%d" % (int(m.group(1)) - k, int(m.group(2)) - k), out)
+        ws0 = list(ws)
+        ws0[2] = "0"
+        return oracle(" ".join(ws0), out0)
     if ws[0] == "parse":
         mode, erase, src, extra = refsweep.split_request(req)
         if req in _REFS:
@@ -1664,6 +1714,16 @@ def streams(ctx):
     out.append(Stream("probes+corpus", reqs, kind="corpus", compare=False,
                       note="one probe per listed finding, then layouts named in the property (multi-byte, CR/CRLF, BOM, "
                            "continuations, parenthesised forms, f-string fields, concatenation)"))
+    # the same extents at a start offset (the lexer adds the offset, and the BOM length, to every position)
+    oreqs = []
+    for s0 in corpus:
+        for k in (1, 100):
+            r = refsweep.make_request("m", 0, s0).split()
+            r[2] = str(k)
+            oreqs.append(" ".join(r))
+    out.append(Stream("corpus-at-start-offset", oreqs, kind="corpus", compare=False,
+                      note="the corpus (multi-byte, CR/CRLF, BOM, continuations, f-string fields, concatenations) parsed with "
+                           "parse_starts_at at offsets 1 and 100: ranges moved back by the offset are judged like the offset-0 answer"))
     # Lean predicate on real trees vs the Python structural verdict
     lreqs = [f"rangesok {m} {hexs(s)} {hexs(t)}" for m, s, t in _LEAN_ITEMS]
     out.append(Stream("rangesOk-on-real-trees", lreqs, kind="directed",
